@@ -368,6 +368,8 @@ def check_seq(seq, stats):
                     body = obs[5:obs.index(" paths=")]
                     if pm.group(1) != "ok":
                         hits.append(hit("C02", seq, no, raw, f"the access paths of archetype {op[1]} disagree with each other: {pm.group(1)}", "paths-disagree"))
+                        if "iter" in pm.group(1) or "entities" in pm.group(1):
+                            hits.append(hit("C06", seq, no, raw, f"Archetype::iter / iter_mut / entities() of archetype {op[1]} do not present each entity with its own handle and components: {pm.group(1)}", "iter-paths-disagree"))
                 for r in body.split("|"):
                     if ":" in r:
                         check_vals(seq, no, raw, w, view_pairs("@" + r), hits, "get_slice / iter / view of the archetype")
@@ -556,6 +558,10 @@ def check_seq(seq, stats):
                                     hits.append(hit("C02", seq, no, raw, f"the direct handle {di['words']} obtained for an entity reads components {toks[:4]}; the entity owns {exp[:4]}", "direct-not-own-row"))
                                     hits.append(hit("C01", seq, no, raw, f"to_direct of a live handle returned {di['words']}, which designates another entity (components {toks[:4]} instead of {exp[:4]})", "todirect-wrong-entity"))
                                 break
+            own_ = (hv and hv[0] == "e" and not hv[3] and w is not None and hv[1] in w.issued) or (di is not None and w is not None and di["world"] == cur)
+            if own_ and any(v_.startswith("!DebugAssert") for v_ in f.values()):
+                nm_ = next(k_ for k_, v_ in f.items() if v_.startswith("!DebugAssert"))
+                hits.append(hit("C19", seq, no, raw, f"a lookup ({nm_}) with a handle this world issued itself trips a debug assertion: debug and release builds differ (panic vs. an answer) where the build profile documents no difference", "debug-assert-on-issued-handle"))
             if hv and hv[0] == "e" and w is not None and not w.unknown_destroy:
                 words, static, mismatch = hv[1], hv[2], hv[3]
                 key_id = int(words.split(".")[0]) & 0xff
@@ -636,6 +642,18 @@ def check_seq(seq, stats):
         elif kind == "drop":
             if len(op) > 1 and op[1].isdigit() and int(op[1]) < len(worlds) and (obs.startswith("ok") or obs.startswith("panic")):
                 worlds[int(op[1])] = None
+        elif kind == "iterds":
+            # ecs_iter_destroy! driven by a plain EcsStep closure: Continue…, Break at call brk
+            stats["iterd"] += 1
+            if w is not None:
+                bk = next((int(t_[4:]) for t_ in op[2:] if t_.startswith("brk=")), None)
+                op2 = [op[0], op[1]] + [t_ for t_ in op[2:] if not t_.startswith("brk=")] + (["dec=" + "c" * bk + "b"] if bk is not None else [])
+                query_values(seq, no, op, obs, raw, w, hits)
+                hs_ = check_iterd(seq, no, op2, obs, raw, w, archs, ids)
+                hits.extend(hs_)
+                for h_ in hs_:
+                    if h_["class"] == "no-stop":
+                        hits.append(hit("C06", seq, no, raw, "EcsStep::Break returned from the closure of ecs_iter_destroy! did not end the query", "no-stop"))
         elif kind == "iterd":
             stats["iterd"] += 1
             if w is not None:
@@ -704,7 +722,7 @@ def check_seq(seq, stats):
                     exp = [str(i) for i in range(len(items), -1, -1)]
                     if hn_ != exp:
                         hits.append(hit("C17", seq, no, raw, f"size_hint sequence {hn_} not exact for {len(items)} items", "size-hint"))
-        if kind in ("iter", "iterb", "iterd", "find", "findb") and "saved=1" in obs:
+        if kind in ("iter", "iterb", "iterd", "iterds", "find", "findb") and "saved=1" in obs:
             # `save=dN`: the harness keeps the LAST direct handle a closure call received, typed by its id
             sv = next((t_[5:] for t_ in op if t_.startswith("save=")), None)
             dargs = [a_ for c_ in call_list(obs) for a_ in c_ if a_.startswith("d") and "." in a_]
